@@ -21,10 +21,15 @@ Definition run_key (p : keyp) (v : Z) : Z := let 'Key m := p in v mod m.
 Inductive convp := Conv (a b m r : Z).
 Definition run_conv (p : convp) (v : Z) : Z * option Z :=
   let 'Conv a b m r := p in (v * a + b, if v mod m =? r then Some v else None).
-(* equals(x, y): (x - y) mod m = 0 (an equivalence), or |x - y| <= d (not transitive) *)
-Inductive eqp := EqMod (m : Z) | EqNear (d : Z).
+(* equals(x, y): (x - y) mod m = 0 (an equivalence), or |x - y| <= d (symmetric, not transitive),
+   or x - y <= d (not symmetric: shows the order of the arguments; transitive for d = 0) *)
+Inductive eqp := EqMod (m : Z) | EqNear (d : Z) | EqLe (d : Z).
 Definition run_eq (p : eqp) (x y : Z) : bool :=
-  match p with EqMod m => (x - y) mod m =? 0 | EqNear d => Z.abs (x - y) <=? d end.
+  match p with
+  | EqMod m => (x - y) mod m =? 0
+  | EqNear d => Z.abs (x - y) <=? d
+  | EqLe d => x - y <=? d
+  end.
 
 Inductive trimfn := TBoth | TLeft | TRight.
 
